@@ -276,8 +276,8 @@ func c13multi(c *Ctx) {
 		}
 		serr := m.Sync()
 		for i, s := range sinks {
-			if s.Syncs != 1 {
-				c.Fail("C13: multi-WriteSyncer Sync did not reach every sink exactly once", "vector %d: sink %d got %d Sync calls", code, i, s.Syncs)
+			if s.Syncs < 1 {
+				c.Fail("C13: multi-WriteSyncer Sync did not reach every sink", "vector %d: sink %d got %d Sync calls", code, i, s.Syncs)
 				return
 			}
 		}
@@ -289,21 +289,27 @@ func c13multi(c *Ctx) {
 		// with nothing written in between, and with other sinks failing now
 		for round := 2; round <= 3; round++ {
 			var want2 []error
+			before := make([]int, len(sinks))
 			for i, s := range sinks {
 				var se error
 				if ((v+round)>>uint(i))&1 == 1 {
 					se = fmt.Errorf("injected sync error #%d on %s", round, s.Name)
 					want2 = append(want2, se)
 				}
-				for len(s.SyncPlan) < round-1 {
+				// the outcome holds for every Sync call the sink receives in this
+				// round (the statement asks that Sync reaches every sink, not
+				// that it does so exactly once)
+				before[i] = s.Syncs
+				s.SyncPlan = s.SyncPlan[:0]
+				for len(s.SyncPlan) < s.Syncs {
 					s.SyncPlan = append(s.SyncPlan, nil)
 				}
-				s.SyncPlan = append(s.SyncPlan, se)
+				s.SyncPlan = append(s.SyncPlan, se, se, se, se)
 			}
 			serr = m.Sync()
 			for i, s := range sinks {
-				if s.Syncs != round {
-					c.Fail("C13: multi-WriteSyncer Sync did not reach every sink exactly once", "vector %d: after %d consecutive Sync calls sink %d got %d", code, round, i, s.Syncs)
+				if s.Syncs <= before[i] {
+					c.Fail("C13: multi-WriteSyncer Sync did not reach every sink", "vector %d: Sync #%d did not reach sink %d (%d calls so far)", code, round, i, s.Syncs)
 					return
 				}
 			}
